@@ -188,3 +188,13 @@ Example C19_nonvacuous :
   f_res 4294967295 = Ok (0%N, Some 4294967295) /\ f_res 4294967296 = Err /\
   f_bank_bits_res_max 2147483648 = Err /\ f_bank_outp_label 18446744073709551615 = Panic.
 Proof. vm_compute. repeat split. Qed.
+
+(* ===== block nesting in the line/directive parser model (the counter added by the F10 repair): accepted programs
+   nest #if / braces at most PARSE_DEPTH_MAX deep, also across asm blocks and else/elif arms ===== *)
+From CA Require Import Model.Lexer Model.Parser Model.AsmAst Model.AsmParser Proofs.AsmParserP.
+Theorem C19_block_depth : forall (t : text) (nodes : list anode) (w : walker) (k : nat),
+  parse_file t = POk nodes w -> nest_ge k nodes -> (k <= PARSE_DEPTH_MAX)%nat.
+Proof. exact AsmParserP.C19_block_depth. Qed.
+Theorem C19_block_guard : forall (fuel bd : nat) (w : walker), (PARSE_DEPTH_MAX <= bd)%nat ->
+  parse_braced fuel bd w = PErr \/ parse_braced fuel bd w = PFuel.
+Proof. exact AsmParserP.C19_block_guard. Qed.
